@@ -22,7 +22,7 @@ import stages
 from tbf import walk, kids, strip, AnalysisBroken
 
 LEVEL = "other"
-TECHNIQUE = "dominance / key-agreement rules on the lookup functions over the clang AST"
+TECHNIQUE = "dominance / key-agreement rules on the lookup functions over the clang AST + integer constraint systems for arithmetic exits + derived-state rules of C13 restricted to the members the lookups name"
 
 INGROUP = [("TbfCellsContainer", "getElementFromSpacialIndex", "nbCells"), ("TbfCellsContainer", "getElementFromParentIndex", "nbCells"),
            ("TbfParticlesContainer", "getElementFromSpacialIndex", "nbLeaves")]
